@@ -124,6 +124,9 @@ func (s *Scenario) Validate() error {
 		}
 		seen[r.ID] = true
 	}
+	if s.has("keepalive") && (s.Client.KATimeNs <= 0 || s.Client.KATimeoutNs <= 0) {
+		return fmt.Errorf("keepalive oracle without keepalive parameters")
+	}
 	return nil
 }
 
